@@ -151,7 +151,7 @@ def main():
                 bump('hang')
                 if how == 'subst' and not strict and use[0].startswith('interp'):
                     # a substituted payload byte can turn the saved program into another valid program that does not terminate
-                    ctx.violation('nochecksum-nontermination:%s:%s' % (kind, reg), desc + ': the interpreted program no longer terminates', files)
+                    ctx.violation('nochecksum-nontermination:%s' % kind, desc + ': the interpreted program no longer terminates', files)
                 else: ctx.violation('hang:%s:%s:%s' % (kind, how, use[0]), desc, files)
                 continue
             if b'hard rss limit exhausted' in blob or b'allocator is out of memory' in blob or b'requested allocation size' in blob:
@@ -164,10 +164,13 @@ def main():
                 bump('fault')
                 files['case.txt'] = 'fault kind %s at %s\n' % (fkind, site) + files['case.txt']
                 if strict: ctx.violation('header-region:%s:%s:%s' % (kind, fkind, site), desc, files)
-                else: ctx.violation('fault:%s:%s:%s:%s' % (kind, use[0], how, reg), desc + ' [%s at %s]' % (fkind, site), files)
+                else: ctx.violation('fault:%s:%s:%s' % (kind, use[0], 'truncation' if how == 'trunc' else 'payload-substitution'), desc + ' [%s at %s]' % (fkind, site), files)
                 continue
             if p.rc != 0:
                 if DIAG.search(blob): bump('refused')
+                elif how == 'subst' and not strict and (use[0].startswith('interp') or use[0].startswith('client')):
+                    # the (possibly different but well-formed) program was run and ended with a failure status of its own
+                    bump('silent-different'); ctx.violation('nochecksum:%s' % kind, desc + ': the interpreted program ends with a failure status (the format carries no checksum)', files)
                 else:
                     bump('nonzero-no-diagnostic'); ctx.violation('nonzero-without-diagnostic:%s:%s' % (kind, use[0]), desc, files)
                 continue
@@ -178,7 +181,7 @@ def main():
             if strict or how == 'trunc':
                 ctx.violation('silently-used:%s:%s:%s' % (kind, how, 'header' if strict else reg), desc + ': exit 0 with different or missing output', files)
             else:
-                ctx.violation('nochecksum:%s:%s' % (kind, reg), desc + ': exit 0 with different output (the format carries no checksum)', files)
+                ctx.violation('nochecksum:%s' % kind, desc + ': exit 0 with different output (the format carries no checksum)', files)
     ctx.sample({'file': 'u.ao', 'size': len(intact['u.ao']), 'damage': 'truncate at offset 200', 'use': 'aldor -Fc=out.c u.ao'})
     ctx.sample({'sections_of_u.ao': sorted(set(regions['u.ao'](o) for o in range(len(intact['u.ao']))))})
     ctx.assumptions += ['the damaged-input set is a fixed enumeration over files produced by the snapshot\'s own compiler from committed sources; quick runs a VERIF_SEED-chosen 1/24 of it',
